@@ -1103,7 +1103,9 @@ func (db *DB) Repair(of Object) (err error) {
 			continue
 		}
 
-		if o, err = db.getByUUID(of, uuid); err != nil {
+		// a new Object is needed for every file, otherwise data of
+		// the previous objects (i.e. map entries) are merged in
+		if o, err = db.getByUUID(newIterator(db, of, nil).object(), uuid); err != nil {
 			return
 		}
 
